@@ -10,9 +10,9 @@ RULE = ("Two generated sources run on the ASan/UBSan executable, as file and (30
         "a valid C01-space script with 1-3 injected faults (ill-sorted argument, wrong arity, unknown symbol/sort, non-linear "
         "product, division/div/mod by zero, duplicate declaration, command before set-logic, second set-logic, unsupported query "
         "(models in array logics, interpolants outside UF/LRA/LIA, proofs/cores without the option), unbalanced parentheses, stray "
-        "tokens, huge or negative push/pop numerals, missing arguments, out-of-alphabet bytes, names with format characters); "
+        "tokens, huge or negative push/pop numerals, missing arguments, out-of-alphabet bytes, declared and undeclared names with printf format characters in accepted and rejected commands); "
         "(c) token-level mutations (delete/duplicate/swap/splice/replace) of the 519 files under test/regression (inputs only). "
-        "Oracle: no exit by signal, no 'terminate called', no ASan/UBSan report, exit status in {0,1}; '(error' on stdout implies "
+        "Oracle: no exit by signal, no 'terminate called', no ASan/UBSan report, exit status in {0,1}; standard output ends with a complete line; for inputs containing '%' the output must change consistently when every '%' is written '$' (names are opaque); '(error' on stdout implies "
         "exit status != 0; an input our own reader finds unbalanced/with a stray token must produce a diagnostic on stdout and exit "
         "status != 0; a script without check-sat must finish within 10 s. Non-trivial = input with >= 1 accepted declaration and "
         ">= 1 injected fault or mutation; distinct by text. Known findings are keyed by crash fingerprint (exception type / "
@@ -115,6 +115,20 @@ def inject(rnd, script, sig, tg):
                                          "(assert #xFF)", "(assert b0) ; \xc3\xa9", "(assert (= 1e5 1))"]))
         elif f == "format-name":
             n = rnd.choice(["|a%sb|", "|%n|", "|%d%d%d%d|", "|100%|", "|%s%s%s%s%s%s|"])
+            if rnd.random() < 0.6:
+                # the same kind of name in a command that is rejected: the name then travels through the diagnostics
+                u = rnd.choice(["y%s", "%s%s%s%s", "|q %n|", "%d%d%d%d%d%d%d%d", "u%sv%sw", "|%s|", "%x%x%x%x%s"])
+                bad = ["(assert (and %s %s))" % (rnd.choice(anyv), u), "(assert (%s %s))" % (u, rnd.choice(anyv)), "(get-value (%s))" % u,
+                       "(declare-fun w%d () %s)" % (pos, u), "(set-option :%s true)" % u.strip("|"), "(set-logic %s)" % u,
+                       "(define-fun %s () Bool %s)" % (n, n), "(declare-fun %s () Bool)" % n, "(get-info :%s)" % u.strip("|"),
+                       "(assert (! true :named %s))" % n, "(declare-sort %s 1)" % u, "(get-interpolants %s %s)" % (u, u),
+                       "(assert (let ((%s true)) (and %s zq)))" % (u, u), "(%s)" % u.strip("|").replace(" ", ""), "(get-option :%s)" % u.strip("|"),
+                       "(set-info :%s %s)" % (u.strip("|"), u)]
+                if nums:
+                    x = rnd.choice(sig.vars[rnd.choice(nums)])
+                    bad += ["(assert (> (+ %s %s) 0))" % (x, u), "(assert (= %s (* %s %s)))" % (x, u, x)]
+                for b in rnd.sample(bad, rnd.randint(1, 3)):
+                    body.insert(rnd.randint(0, len(body)), b)
             lines.append("(declare-fun %s () Bool)" % n)
             body.insert(pos, "(assert (! %s :named %s))" % (n, rnd.choice(["|n%s|", "|%x|", "nm1"])))
             body.append("(check-sat)")
@@ -229,6 +243,10 @@ def check(case, ctx):
     if o.crashed() or o.rc not in (0, 1):
         fp = fingerprint(o)
         return viol("crash: " + fp, fp)
+    if o.stdout and not o.stdout.endswith("\n"):
+        # every response and diagnostic is written as a complete line; an output that stops in the middle of one means the
+        # stream broke while printing (e.g. a null char* put into std::cout sets badbit and silences everything after it)
+        return viol("output-truncated: standard output stops in the middle of a line", "stdout-truncated")
     if "(error" in o.stdout and o.rc == 0:
         return viol("error-reported-but-exit-status-0", "error-with-exit-0")
     if not balanced(text) and not case.get("pipe"):
@@ -237,6 +255,19 @@ def check(case, ctx):
             return viol("syntax-error-not-signalled: unbalanced input, exit status 0", "syntax-error-exit-0")
         if not o.stdout.strip():
             return viol("syntax-error-without-diagnostic-on-stdout", "syntax-error-no-diagnostic")
+    if "%" in text and "$" not in text:
+        # symbol names are opaque: writing '$' for every '%' (both are plain symbol characters, adjacent in ASCII, so no order
+        # changes) must change the output in exactly the same way; anything else means a name was interpreted (printf-style)
+        o2 = run.run_text(text.replace("%", "$"), "san", 30.0, pipe=case.get("pipe", False))
+        classes.append("percent-renaming")
+        if not o2.timeout and not o2.crashed() and (o.stdout.replace("%", "$") != o2.stdout or o.rc != o2.rc):
+            o3 = run.run_text(text, "san", 30.0, pipe=case.get("pipe", False))
+            if not o3.timeout and (o3.stdout.replace("%", "$") != o2.stdout or o3.rc != o2.rc):
+                a, b = o3.stdout.replace("%", "$").split("\n"), o2.stdout.split("\n")
+                i = next((k for k in range(min(len(a), len(b))) if a[k] != b[k]), min(len(a), len(b)))
+                d = viol("names-interpreted: output differs when '%' in symbol names is written '$'", "percent-name-interpreted")
+                d.detail["first_difference"] = {"with_percent": o3.stdout.split("\n")[i:i + 1], "with_dollar": b[i:i + 1]}
+                return d
     classes.append("rc:%s" % o.rc)
     return Result("ok", nt_key, classes)
 
